@@ -102,6 +102,7 @@ Proof.
     destruct Hs1 as [->|[m ->]]; [exact H|apply li_add_log, H].
   - (* TDecresc *) destruct (_ <? _); [discriminate|]. intros E; injection E as <-. exact H.
   - (* TPlay *) intros E. apply (li_exec_play ec s args lineno s2 Hec H E).
+  - (* TMetaText *) destruct (_ && _); [|discriminate]. intros E; injection E as <-. exact H.
 Qed.
 
 (* ---- exec_f, run_source, compile ---- *)
